@@ -30,6 +30,18 @@ impl Cb {
             random_calls: 0,
         }
     }
+    /// Randomness that differs from draw to draw: the k-th draw of an endpoint
+    /// (k = `drawn` so far) yields `base` with its last byte advanced by k, so
+    /// that "a fresh random value" is really different from the previous one.
+    pub fn with_draws(now: u64, base: [u8; 4], drawn: u8) -> Cb {
+        let random = (0..8u8).map(|i| [base[0], base[1], base[2], base[3].wrapping_add(drawn.wrapping_add(i).wrapping_mul(17))]).collect();
+        Cb {
+            now,
+            out: Vec::new(),
+            random,
+            random_calls: 0,
+        }
+    }
     fn rnd(&mut self, buffer: &mut [u8]) {
         let v = self.random[self.random_calls % self.random.len()];
         self.random_calls += 1;
